@@ -277,8 +277,14 @@ def auto_extract(unit, spec, ex, compiler_output):
     names |= set(re.findall(r'cannot find function `(\w+)` in this scope', compiler_output))
     values = set(re.findall(r'cannot find value `(\w+)` in this scope', compiler_output))
     values |= set(re.findall(r'cannot find type `(\w+)` in this scope', compiler_output))
+    fields = re.findall(r'no field `(\w+)` on type `(?:&(?:mut )?)*(\w+)', compiler_output)
+    added_field = False
+    for f, sname in fields:
+        if f not in ex.auto_fields.get(sname, []):
+            ex.auto_fields.setdefault(sname, []).append(f)
+            added_field = True
     if not names and not values:
-        return False
+        return added_field
     tmpl = open(os.path.join(unit['dir'], spec['template'])).read()
     added = False
     for mo in re.finditer(r'^\s*//@autosemi\s+(.*)$', tmpl, re.M):
@@ -315,7 +321,7 @@ def auto_extract(unit, spec, ex, compiler_output):
                 continue
             ex.auto.setdefault(key, []).append(nm)
             added = True
-    return added
+    return added or added_field
 
 
 def _write_if_changed(p, s):
